@@ -13,6 +13,7 @@
  ],
  'unwindset': ['spec_crc_byte.0:9'],
  'complete_unwinding': 'the 8-round loops of the reference are unwound completely (unwinding assertions on)',
+ 'fallback': 'ghost-free',
  'witness': {'unwind': 10},
 } @*/
 #include "vc.h"
@@ -38,8 +39,15 @@ void harness(void)
 
     uint8_t r = igris_crc8_table(data, n, seed);
 
+#if !VC_FALLBACK
     __CPROVER_assert(g_i == n, "reference folded exactly data[0..n), in order");
     __CPROVER_assert(r == SPEC_DOW8_OUT(g_reg), "igris_crc8_table == reference Dallas CRC-8 of data[0..n) from seed");
+#endif
+#ifdef WITNESS_MODE
+    /* direct reference over the (small, concrete) message: does not depend on the injected ghost fold, so it also
+       decides the bounded fallback run when the loop the ghost statements anchor in has been restructured */
+    __CPROVER_assert(r == (uint8_t)spec_crc_out(8, 1, spec_crc_fold(8, 0x31u, 1, SPEC_DOW8_REG_OF(seed), data, n)), "igris_crc8_table == reference Dallas CRC-8 (direct fold)");
+#endif
     __CPROVER_assert(!(k < n) || data[k] == at_k, "igris_crc8_table does not modify the message");
     CANARY("crc8_table harness end reachable");
 }
